@@ -27,6 +27,17 @@ class HarnessError(Exception):
     """Something is wrong with the harness (not with geckolib). Exit 2."""
 
 
+class RigFailure(Exception):
+    """The fault-free set-up of a scenario failed in the code under test (e.g. the handshake
+    against the bundled simulator does not complete).  Harnesses decide whether that is a
+    violation of *their* property or something they cannot judge (-> HarnessError)."""
+
+    def __init__(self, stage, detail=""):
+        super().__init__(f"{stage}: {detail}")
+        self.stage = stage
+        self.detail = detail
+
+
 def use_repo():
     """Put the working tree under test first on sys.path and prove we import from it."""
     src = os.path.join(REPO, "src")
